@@ -89,6 +89,7 @@ inductive PErr where
   | unknownDirective (idx : Nat)
   | notAllowed (idx : Nat)                -- a banned kind, refused when its keyword is read
   | noDirective (idx : Nat)               -- "there is no directive for the …"
+  | jsightNotFirst (idx : Nat)            -- "JSIGHT should be the first directive", when a JSIGHT directive is placed (F80)
   | param (e : Param.PErr) (idx : Nat)
   | ctx (e : CtxErr) (idx : Nat)
   | paste (e : PasteErr)
@@ -108,6 +109,12 @@ def ctxErrIdx (cur : Nat) : CtxErr → Nat
   | .noExplicitToClose => cur - 1
   | .unclosedAtEOF => cur - 1
 
+/-- the directive placed first, when it is not a JSIGHT directive (F80): a JSIGHT directive placed later is refused -/
+def firstNotJsight (done : List RDir) : Option RDir :=
+  match done.getLast? with
+  | some f => if f.kind != Kind.Jsight then some f else none
+  | none => none
+
 /-- `processCurrentDirective` -/
 def flush (st : ASt) : Except PErr ASt :=
   match st.cur with
@@ -115,7 +122,12 @@ def flush (st : ASt) : Except PErr ASt :=
   | some r =>
     match place st.ctx.frames st.ctx.roots r.toDir with
     | .error e => .error (.ctx e (ctxErrIdx 0 e))
-    | .ok c => .ok { cur := none, ctx := c, done := r :: st.done }
+    | .ok c =>
+      -- F80: JSIGHT is the first directive of the document, whatever stands before it (also a MACRO, which the check
+      -- of the catalog stage does not see); the diagnostic is located at the first directive
+      match (if r.kind == Kind.Jsight then firstNotJsight st.done else none) with
+      | some f => .error (.jsightNotFirst f.pos)
+      | none => .ok { cur := none, ctx := c, done := r :: st.done }
 
 def includeName : Bytes := "INCLUDE".toUTF8.toList
 
@@ -315,7 +327,10 @@ def flushF (n : Nat) (st : ASt) : Except FErr ASt :=
   | some r =>
     match place st.ctx.frames st.ctx.roots r.toDir with
     | .error e => .error ⟨idFile n r.pos, .ctx e (idPos n r.pos)⟩
-    | .ok c => .ok { cur := none, ctx := c, done := r :: st.done }
+    | .ok c =>
+      match (if r.kind == Kind.Jsight then firstNotJsight st.done else none) with
+      | some f => .error ⟨idFile n f.pos, .jsightNotFirst (idPos n f.pos)⟩
+      | none => .ok { cur := none, ctx := c, done := r :: st.done }
 
 /-- diagnostics of `processInclude`, all located at the INCLUDE keyword -/
 def incErr (file pos : Nat) (k : IncFault) : FErr := ⟨file, .incl k pos⟩
